@@ -87,7 +87,8 @@ def run(tier, replay_file=None):
         if ctor == 'for_not_found': return ex.call_fn(F[ctor], [code, internal]), reason[404], internal, 404, code
         raise Unsupported(ctor)
 
-    HEADER_PLANS = [(), (('add', 'allow'),), (('with', 'x-custom'),), (('add', 'allow'), ('add', 'allow')), (('add', 'x-custom'), ('with', 'allow'))]
+    HEADER_PLANS = [(), (('add', 'allow'),), (('with', 'x-custom'),), (('add', 'allow'), ('add', 'allow')), (('add', 'x-custom'), ('with', 'allow')),
+                    (('with', 'x-custom'), ('with', 'x-custom')), (('add', 'allow'), ('with', 'allow'))]
     n_resp = 0
     for ctor in CONSTRUCTORS:
         for has_code in ((False, True) if ctor != 'for_internal_error' else (False,)):
@@ -340,7 +341,7 @@ def report(chk, m, ctor, has_code, st, what, attached=(), leak=False):
     if m is None: return
     v = m.eval(st, model_completion=True).as_long()
     case = {'op': 'http_error', 'ctor': ctor, 'status': v, 'code': 'E_CODE' if has_code else None, 'message': 'external-msg',
-            'internal': 'internal-secret', 'headers': [[n, f'hv{i}'] for i, (_, n) in enumerate(attached)], 'request_id': 'rid-123'}
+            'internal': 'internal-secret', 'headers': [[n, f'hv{i}', how] for i, (how, n) in enumerate(attached)], 'request_id': 'rid-123'}
     nat = replay([case])[0]
     chk.counterexample(f'{what}; status {v} -> native {nat}', case, not native_ok(case, nat), role=f'error:{ctor}')
 
@@ -359,8 +360,8 @@ def native_ok(case, nat):
     ok = ok and (want_msg is None or b.get('message') == want_msg)
     ok = ok and nat.get('x_request_id') == [case['request_id']] and nat.get('content_type') == ['application/json']
     ok = ok and 'internal-secret' not in nat.get('raw_body', '') and all('internal-secret' not in v for _, v in nat.get('headers', []))
-    for n, v in case['headers']:
-        ok = ok and [n, v] in nat.get('headers', [])
+    for h in case['headers']:
+        ok = ok and [h[0], h[1]] in nat.get('headers', [])
     return ok
 
 
